@@ -130,7 +130,8 @@ def execTop (w : World) (sid : Nat) (stmt : Stmt) (retry : Bool) (now : Option I
         | [] => none
         | sp :: rest => if sp.name == name then some rest else dropTo rest
       match dropTo sess.savepoints with
-      | none => (w, .error (pgErr "3B001" s!"savepoint \"{name}\" does not exist"))
+      -- an ordinary ERROR inside a transaction block (xact.c ReleaseSavepoint): the block is aborted
+      | none => (failTx w sess, .error (pgErr "3B001" s!"savepoint \"{name}\" does not exist"))
       | some rest => (w.setSession { sess with savepoints := rest }, .ok {})
   | .rollbackTo name =>
     if !sess.explicit then (w, .error (pgErr "25P01" "ROLLBACK TO SAVEPOINT can only be used in transaction blocks"))
@@ -139,7 +140,8 @@ def execTop (w : World) (sid : Nat) (stmt : Stmt) (retry : Bool) (now : Option I
         | [] => none
         | sp :: rest => if sp.name == name then some (sp :: rest) else keepFrom rest
       match keepFrom sess.savepoints with
-      | none => (w, .error (pgErr "3B001" s!"savepoint \"{name}\" does not exist"))
+      -- likewise (xact.c RollbackToSavepoint): 25P02 until ROLLBACK [TO an existing savepoint]
+      | none => (failTx w sess, .error (pgErr "3B001" s!"savepoint \"{name}\" does not exist"))
       | some (sp :: rest) =>
         let w := w.clearWaiters sid
         let w := w.undo sess.xid sp.cid
